@@ -6,6 +6,7 @@ CONSTANTS
   MaxInst = 2
   NZ = 1
   MaxReq = 3
+  MaxPureTaken = 3
   NForeign = 0
   CJ = TRUE
 INIT Init
